@@ -361,6 +361,10 @@ class Taint:
             return (b.env or {}).get(e.attr, CLEAN())
         if e.attr in ('dtype', 'dtypes'):
             return CLEAN()            # the schema is public
+        if e.attr == 'shape' and b.frame and b.t and isinstance(e.value, ast.Attribute) and e.value.attr == 'df':
+            # (rows, columns) of a dataset's frame: the number of records (private; public only under bounded adjacency) and the number
+            # of attributes (the schema, public)
+            return AV(kind='tuple', elems=[AV(True, count=True, why='the record count `%s[0]`' % U(e)), CLEAN()])
         if e.attr in ('size', 'shape', 'ndim'):
             t = b.st or (b.frame and b.t)
             return AV(t, why=('the shape of ' + (b.reason() or 'a private frame')) if t else None)
